@@ -275,6 +275,10 @@ impl Archive {
 
         debug!("Find unreferenced blocks...");
         let unref = present.difference(&referenced).collect_vec();
+        // Hash-set iteration order would make the sequence of storage operations differ
+        // between two runs of the same simulated scenario.
+        #[cfg(feature = "verif_hooks")]
+        let unref = unref.into_iter().sorted().collect_vec();
         let unref_count = unref.len();
         debug!(unref_count);
         stats.unreferenced_block_count = unref_count;
